@@ -32,6 +32,13 @@ func runC17(c *Ctx, r *Rec) {
 	info := c.info("agent")
 	checkNoReentryAnywhere(c, r, "D2-no-reentry-under-lock", "collection", "GetIterator")
 	checkUnsignedExtremes(c, r, "D1-extreme-arguments", fileFuncs(c, "agent", it), nil)
+	{
+		fds := fileFuncs(c, "agent", it)
+		if icls, err := c.impl("agent", "IteratorClassLike"); err == nil && icls != nil {
+			fds = append(fds, fileFuncs(c, "agent", icls)...)
+		}
+		shapeLints(c, r, fds)
+	}
 	st := structOf(it)
 	if st == nil {
 		r.undecided("bind", "agent.iterator", "", "iterator type is not a struct")
